@@ -866,6 +866,78 @@ def C08_api_sweep(ctx: Ctx, res: Result):
         res.count("api.batching", "off" if scen["nobatch"] else "on")
 
 
+def C08_dtensor_sweep(ctx: Ctx, res: Result):
+    """io_preparers/dtensor.py (an anchor of C08): a DTensor sharded over a 1-rank CPU mesh along dim 0 or 1, saved with a
+    small max-shard-size knob (several pieces) with batching on (pieces share a slab) or off, then read_object into None /
+    a dense tensor under several budgets and restore into a DTensor of the same placement; oracle: the saved global
+    tensor.  Must be called inside C08Group.  Fully replicated DTensors are left out (the library raises KeyError for them
+    in _get_manifest_for_existing_rank on a 1-rank job: noted in DESIGN.md, outside this property)."""
+    import torch
+    from lib.world import safe_gc
+    from torchsnapshot import Snapshot, StateDict
+    try:
+        from torch.distributed._tensor import DeviceMesh, distribute_tensor, Shard as DShard
+        mesh = DeviceMesh("cpu", [0])
+    except Exception as e:  # noqa
+        res.notes.append(f"dtensor sweep skipped: {type(e).__name__}: {str(e)[:100]}")
+        return
+    rng = ctx.rng
+    for i in range(ctx.n(6, 30)):
+        rows, cols = rng.choice([(8, 4), (6, 3), (4, 8), (5, 2), (16, 2)])
+        dim = rng.choice([0, 1])
+        dtype = rng.choice([torch.float32, torch.int64])
+        G = torch.arange(rows * cols).reshape(rows, cols).to(dtype)
+        es = G.element_size()
+        slice_bytes = (G.numel() // G.shape[dim]) * es
+        maxshard = rng.choice([None, 1, slice_bytes, 2 * slice_bytes, 3 * slice_bytes])
+        nobatch = rng.random() < 0.3
+        env = {"TORCHSNAPSHOT_MAX_SHARD_SIZE_BYTES_OVERRIDE": None if maxshard is None else str(maxshard),
+               "TORCHSNAPSHOT_DISABLE_BATCHING": "1" if nobatch else None}
+        saved = {k: os.environ.get(k) for k in env}
+        root = ctx.scratch("c08dt")
+        replay = {"kind": "dtensor", "rows": rows, "cols": cols, "dim": dim, "dtype": str(dtype), "maxshard": maxshard, "nobatch": nobatch}
+        try:
+            for k, v in env.items():
+                if v is None:
+                    os.environ.pop(k, None)
+                else:
+                    os.environ[k] = v
+            with safe_gc():
+                try:
+                    dt = distribute_tensor(G.clone(), mesh, [DShard(dim)])
+                    Snapshot.take(os.path.join(root, "s"), {"m": StateDict({"w": dt})})
+                    snap = Snapshot(os.path.join(root, "s"))
+                    for budget in (None, 1, max(1, slice_bytes + slice_bytes // 2)):
+                        for kind in ("dtensor",):          # a DTensorEntry can only be read into a runtime DTensor
+                            out = distribute_tensor(torch.full((rows, cols), -1).to(dtype), mesh, [DShard(dim)])
+                            got = snap.read_object("0/m/w", obj_out=out, memory_budget_bytes=budget)
+                            got = got.to_local() if hasattr(got, "to_local") else got
+                            res.case(dict(replay, op="read_object", budget=budget, dst=kind), True)
+                            res.count("dtensor.op", "read_object")
+                            if list(got.shape) != [rows, cols] or not torch.equal(got, G):
+                                res.failures.append(Failure("C08:dtensor:read_object-differs",
+                                                            f"DTensor {rows}x{cols} Shard({dim}) max_shard={maxshard} nobatch={nobatch}: read_object(budget={budget}, dst={kind}) "
+                                                            f"returned shape {list(got.shape)} with {int((got != G).sum()) if list(got.shape) == [rows, cols] else '?'} wrong elements", dict(replay, budget=budget, dst=kind)))
+                    tgt = distribute_tensor(torch.full((rows, cols), -1).to(dtype), mesh, [DShard(dim)])
+                    st = {"m": StateDict({"w": tgt})}
+                    snap.restore(st)
+                    back = st["m"]["w"]
+                    back = back.to_local() if hasattr(back, "to_local") else back
+                    res.case(dict(replay, op="restore"), True)
+                    res.count("dtensor.op", "restore")
+                    if not torch.equal(back, G):
+                        res.failures.append(Failure("C08:dtensor:restore-differs", f"DTensor {rows}x{cols} Shard({dim}) max_shard={maxshard} nobatch={nobatch}: restore left {int((back != G).sum())} wrong elements", replay))
+                except Exception as e:  # noqa
+                    res.failures.append(Failure(f"C08:dtensor:raised:{type(e).__name__}", f"DTensor {rows}x{cols} Shard({dim}) max_shard={maxshard} nobatch={nobatch}: {type(e).__name__}: {str(e)[:160]}", replay))
+        finally:
+            for k, v in saved.items():
+                if v is None:
+                    os.environ.pop(k, None)
+                else:
+                    os.environ[k] = v
+            shutil.rmtree(root, ignore_errors=True)
+
+
 # --------------------------------------------------------------------------- driver
 def C08_cases(ctx: Ctx):
     rng = ctx.rng
@@ -948,6 +1020,7 @@ def correspond(ctx: Ctx) -> Result:
         finally:
             loop.close()
         C08_api_sweep(ctx, res)
+        C08_dtensor_sweep(ctx, res)
     runs = [("C08_w", CORRESPONDENCES[1], IMPORTS, "obs_write", cw), ("C08_r", CORRESPONDENCES[2], IMPORTS, "obs_read", cr),
             ("C08_m", CORRESPONDENCES[3], IMPORTS, "obs_merge", cm)]
     if gen_ok:
